@@ -239,20 +239,7 @@ def Slice(start=None, stop=NOT_DATA, step=None):
     Raises:
         ValueError: If the arguments are not valid for creating a slice.
     """
-    if start is None:
-        if stop is None:
-            raise ValueError(
-                "Slice must define at least start or stop, but both are None"
-            )
-        elif step is not None:
-            raise ValueError("If step is provided, start _must_ be provided")
-        else:
-            s = slice(stop)
-    elif stop is None:
-        raise ValueError("If start is provided, stop _must_ be provided")
-    else:
-        s = slice(start, stop, step)
-    return s
+    return slice(start, stop, step)
 
 
 @as_function_node("object")
